@@ -497,6 +497,13 @@ class Interp(object):
     if isinstance(s, ast.If):
       tr, fa = self.cond(st, s.test)
       return self.block(tr, s.body) + self.block(fa, s.orelse)
+    if isinstance(s, ast.Expr) and isinstance(s.value, ast.Yield) and \
+        getattr(self, "yields", False) and s.value.value is not None:
+      # `yield (id, indent)` in a generator is what `adjustments.append((id, indent))` is
+      fake = ast.copy_location(ast.Call(
+        func=ast.Attribute(value=ast.Name(id="$yield", ctx=ast.Load()), attr="append",
+                           ctx=ast.Load()), args=[s.value.value], keywords=[]), s)
+      s = ast.copy_location(ast.Expr(value=fake), s)
     if isinstance(s, ast.Expr) and isinstance(s.value, ast.Call):
       c = s.value
       if isinstance(c.func, ast.Attribute) and c.func.attr == "append" and \
@@ -531,6 +538,31 @@ class Interp(object):
     raise AnalysisError("fix_indents: statement outside the supported subset: %s" % short(s))
 
 
+def _body_function(w, fn):
+  """fix_indents itself, or -- when it only wraps one -- the private generator / helper of its
+  module that does the work: `return list(_helper(items, deleted_ids))` with the two parameters
+  handed on in order (`return _helper(items, deleted_ids)` as well)."""
+  body = [s for s in fn.node.body
+          if not (isinstance(s, ast.Expr) and isinstance(s.value, ast.Constant))]
+  if len(body) != 1 or not isinstance(body[0], ast.Return) or body[0].value is None:
+    return fn
+  e = body[0].value
+  if isinstance(e, ast.Call) and dotted(e.func) in ("list", "tuple") and len(e.args) == 1 and \
+      not e.keywords:
+    e = e.args[0]
+  if not (isinstance(e, ast.Call) and isinstance(e.func, ast.Name) and
+          e.func.id in fn.fi.module.functions):
+    return fn
+  callee = fn.fi.module.functions[e.func.id]
+  b = H.bind_args(e, callee.params())
+  ps = fn.fi.params()
+  if b is None or [text(b.get(p)) if b.get(p) is not None else None
+                   for p in callee.params()] != ps:
+    raise AnalysisError("fix_indents: hands its arguments to %s in a way the analysis does not "
+                        "follow: %s" % (callee.name, short(e)))
+  return w.fn_of(callee)
+
+
 def analyse(fn):
   """Returns (interp, invariant DBM at the loop head, [end-of-body states at the fixpoint],
   loop stmt, return stmt)."""
@@ -538,6 +570,14 @@ def analyse(fn):
   body = [s for s in fn.node.body
           if not (isinstance(s, ast.Expr) and isinstance(s.value, ast.Constant))]
   loops = [s for s in body if isinstance(s, ast.For)]
+  ip.yields = any(isinstance(y, (ast.Yield, ast.YieldFrom)) for y in walk_no_nested(fn.node))
+  if ip.yields:
+    # a generator: the yielded pairs are the adjustments, in order; nothing is returned
+    if any(isinstance(y, ast.YieldFrom) or (isinstance(y, ast.Return) and y.value is not None)
+           for y in walk_no_nested(fn.node)):
+      raise AnalysisError("fix_indents: generator form outside the supported subset")
+    ip.listvar = "$yield"
+    body = body + [ast.Return(value=ast.Name(id="$yield", ctx=ast.Load()))]
   if len(loops) != 1 or not isinstance(body[-1], ast.Return):
     raise AnalysisError("fix_indents: expected initialisations, one loop over the items, return")
   lp = loops[0]
@@ -621,10 +661,16 @@ def _ghost_update(ip, e):
 
 def check(run, repo, tier):
   w = World(repo)
-  fn = w.fn("treeview.fix_indents")
+  fn0 = w.fn("treeview.fix_indents")
   run.assume("page indentations are non-negative integers (the engine stores Int >= 0; the "
              "client never produces negative levels)")
-  ip, inv, ends, lp, ret = analyse(fn)
+  fn = _body_function(w, fn0)
+  if fn is None:
+    return          # (reported as an analysis error)
+  res = analyse(fn)
+  if res is None:
+    return          # analyse() could not follow the code (reported as an analysis error)
+  ip, inv, ends, lp, ret = res
   R1 = run.rule("C36-R1", "valid tree: every page that stays gets an indentation <= kept+1 and "
                 ">= 0 (inductive invariant max_next_indent <= kept+1)", floor=6)
   R2 = run.rule("C36-R2", "never deeper: every page that stays gets an indentation <= its old "
@@ -677,9 +723,13 @@ def check(run, repo, tier):
   for (c, idx) in ip.emissions:
     run.ob(R3, q, short(c), "the adjustment is recorded under the id of the page it was computed "
            "for, as (id, new indentation)", text(idx) == "%s.id" % ip.item, fi=fn.fi, node=c)
-  rv = ip.view.alias_root(ret.value)
-  run.ob(R3, q, "return %s" % ip.listvar, "the list returned is the list of adjustments",
-         isinstance(rv, ast.Name) and rv.id == ip.listvar, fi=fn.fi, node=ret)
+  if ip.yields:
+    run.ob(R3, q, "fix_indents returns list(%s(..))" % fn.fi.name, "the list returned is the "
+           "list of adjustments the generator yields", fn is not fn0, fi=fn.fi)
+  else:
+    rv = ip.view.alias_root(ret.value)
+    run.ob(R3, q, "return %s" % ip.listvar, "the list returned is the list of adjustments",
+           isinstance(rv, ast.Name) and rv.id == ip.listvar, fi=fn.fi, node=ret)
   r4_caller(run, w, ip)
 
 
